@@ -125,9 +125,17 @@ def run(ctx):
     got = I.call(fm, ["rna:AA"], {})
     dict_eq(ctx, "R3", "formula('rna:AA') after formula('dna:AA') uses the RNA table", I.getattr(got, "atoms"),
             I.getattr(I.getattr(seq("AA", "rna"), "labile_formula"), "atoms"), s_fm)
+    # every call returns its own formula: formulas are mutable (+=), so a shared object would leak changes
+    first = I.call(fm, ["aa:ABCA"], {})
+    before = dict(I.getattr(first, "atoms"))
+    extra = I.call(fm, [{next(iter(before)): sp.Integer(5)}], {})
+    I.call(I.getattr(first, "__iadd__"), [extra], {})
+    second = I.call(fm, ["aa:ABCA"], {})
+    dict_eq(ctx, "R3", "formula('aa:ABCA') after the first result was extended in place still gives the sequence's formula",
+            I.getattr(second, "atoms"), before, s_fm)
     rr = raises(lambda: I.call(fm, ["aa:AB*C C"], {}))
     ctx.check(rr is None, "R3", "the prefix route accepts '*' and spaces like the class", f"raises {rr}", s_fm)
-    ctx.floor("R3", 8)
+    ctx.floor("R3", 9)
 
     # ---- R4 FASTA text -----------------------------------------------------------------------
     rf = I.global_name("fasta", "read_fasta")
@@ -144,7 +152,9 @@ def run(ctx):
     g = I.global_name("fasta", "_guess_type_from_filename")
     s_g = fsite(ctx, "fasta._guess_type_from_filename")
     for fn, typ, want in (("x.fna", None, "dna"), ("x.ffn", None, "dna"), ("x.faa", None, "aa"), ("x.frn", None, "rna"),
-                          ("x.fasta", None, "aa"), ("x.fna", "rna", "rna")):
+                          ("x.fasta", None, "aa"), ("x.fna", "rna", "rna"),
+                          ("GCF_000005845.2_ASM584v2_genomic.fna", None, "dna"), ("run.2/prot.v1.faa", None, "aa"),
+                          ("data.v2/x.frn", None, "rna"), ("a.b.ffn", None, "dna"), ("fna", None, "aa"), ("x.fna", "aa", "aa")):
         got = I.call(g, [fn, typ], {})
         ctx.check(got == want, "R4", f"type of '{fn}' (type={typ}) is {want}", f"got {got!r}", s_g)
     # load / loadall: first record / every record, typed by the extension
@@ -153,7 +163,7 @@ def run(ctx):
     r = I.lib.iterate(I, I.call(I.getattr(Seq, "loadall"), ["x.faa"], {}))
     ctx.check(isinstance(r, list) and len(r) == 2 and I.getattr(r[0], "sequence") == "AB" and I.getattr(r[1], "sequence") == "A",
               "R4", "Sequence.loadall yields one Sequence per record", f"got {_s(r)}", fsite(ctx, "fasta.Sequence.loadall"))
-    ctx.floor("R4", 12)
+    ctx.floor("R4", 18)
 
     # ---- R5 literal tables: averaged codes refer to existing codes ---------------------------
     _tables(ctx)
